@@ -346,6 +346,9 @@ def armable(case, R):
     return out
 
 
+EXC_KINDS = ("StopIteration", "KeyError", "IndexError", "TypeError", "ValueError", "AttributeError", "AssertionError", "RuntimeError")
+
+
 def explore_case(case, tier, seed):
     """Run baseline + every fault of one base case.  Yields records
     (kind='base'|'fault', slot, k, R, sub, problems|None)."""
@@ -356,6 +359,11 @@ def explore_case(case, tier, seed):
         for k in range(1, min(n, kmax) + 1):
             R, sub = execute(case, (slot, k), seed)
             yield ("fault", slot, k, R, sub, judge_fault(R, slot, k))
+        # exception classes that library code may treat specially (iterator protocol, dict/list access, call-form probing)
+        if case[4] in (bounds(tier)["timelines"][0], "never") and len(case[1]) + (case[0] is not None) <= 1:
+            for exc in EXC_KINDS:
+                R, sub = execute(case, (slot, 1, exc), seed)
+                yield ("fault:" + exc, slot, 1, R, sub, judge_fault(R, slot, 1))
 
 
 def shard(part: core.Part, shard_i, nshards, tier, seed, deadline):
@@ -383,7 +391,11 @@ def shard(part: core.Part, shard_i, nshards, tier, seed, deadline):
                 part.violation(f"{prog}|{slot_label(slot)}|harness-nondeterminism", f"armed invocation {slot}#{k} not reached although the fault-free run had it", cj)
                 continue
             lab = slot_label(slot)
-            part.case((case, slot, k), not getattr(R, "post_terminal", False), outcome=(repr(obs), tuple(p[0] for p in problems)),
+            exc = kind.split(":", 1)[1] if ":" in kind else None
+            if exc:
+                cj["exc"] = exc
+                part.count("exception_class:" + exc)
+            part.case((case, slot, k, exc), not getattr(R, "post_terminal", False), outcome=(repr(obs), tuple(p[0] for p in problems)),
                       sample={"program": [case[0]] + list(case[1]), "source": case[3], "timeline": case[4], "armed": [slot, k], "observed": obs})
             part.count("slot:" + pid + "|" + lab)
             part.count("kind:" + slot_kind(slot))
@@ -391,7 +403,7 @@ def shard(part: core.Part, shard_i, nshards, tier, seed, deadline):
             if getattr(R, "post_terminal", False):
                 part.count("injection_after_subscriber_terminal")
             for (pk, text) in problems:
-                part.violation(signature(case, slot, pk), f"{prog} [{'+'.join(([case[0]] if case[0] else []) + list(case[1]))}] {case[3]} source, timeline {case[4]}, "
+                part.violation(signature(case, slot, pk) + (f"|raising-{exc}" if exc else ""), f"{prog} [{'+'.join(([case[0]] if case[0] else []) + list(case[1]))}] {case[3]} source, timeline {case[4]}, "
                                f"{lab} raising at invocation {k}: {text}", cj, observed=obs, problems=[p[1] for p in problems])
 
 
@@ -448,7 +460,7 @@ def replay(case):
         problems = judge_baseline(R)
         print("observed (fault-free):", show(R, sub))
         return [{"signature": f"{prog}|baseline|{pk}", "what": text, "detail": [p[1] for p in problems]} for (pk, text) in problems]
-    R, sub = execute(c, (case["slot"], case["k"]), seed)
+    R, sub = execute(c, (case["slot"], case["k"]) + ((case["exc"],) if case.get("exc") else ()), seed)
     problems = judge_fault(R, case["slot"], case["k"])
     print("program:", [c[0]] + list(c[1]), "source:", c[3], "timeline:", cat.TLS(*seed_params(seed)[0])[c[4]], "armed:", case["slot"], case["k"])
     print("observed:", show(R, sub))
